@@ -30,7 +30,10 @@ class TypeMap:
     def expand(self, t):
         if t.is_array:
             if not t.is_static_array:
-                return [REF]
+                # dynamic array / array parameter: one reference; remember
+                # what its elements look like for the sweep
+                self._last_dyn = self.expand(t.array_base_type)
+                return [('DYN', tuple(self._last_dyn))]
             elem = self.expand(t.array_base_type)
             n = 1
             for d in t.array_dims:
@@ -71,10 +74,33 @@ class TypeMap:
             return None
         want = cells[idx]
         got = cell.type.name
+        if isinstance(want, tuple):
+            if got != REF:
+                return {'where': seg_kind, 'idx': idx, 'expected': REF, 'got': got}
+            return self._check_dynamic(cell.value, want[1], seg_kind, idx)
         if want == RESERVED:
             return {'where': seg_kind, 'idx': idx, 'expected': 'nothing', 'got': got}
         if want != got:
             return {'where': seg_kind, 'idx': idx, 'expected': want, 'got': got}
+        return None
+
+    def _check_dynamic(self, ref, elem, seg_kind, idx):
+        """Element cells of a dynamically allocated array."""
+        seg = ref.segment
+        if type(seg).__name__ != 'Array' or ref.index != 0:
+            return None          # a reference into a static array (array parameter)
+        cells = seg.cells
+        nd = cells[1].value if cells[1] is not None else 0
+        base = 3 + 2 * nd
+        n = len(elem)
+        for i in range(base, len(cells)):
+            c = cells[i]
+            if c is None:
+                continue
+            want = elem[(i - base) % n]
+            if c.type.name != want:
+                return {'where': seg_kind + '->dynamic array', 'idx': idx, 'element_cell': i - base,
+                        'expected': want, 'got': c.type.name}
         return None
 
     def check_store(self, cpu, ins, pc):
